@@ -9,7 +9,7 @@ from .common import ScriptedApp, build_request, token_body, AppExc
 PROPERTY = "C11"
 LEVEL = "exploration"
 BUDGET = {"quick": 40, "thorough": 600}
-CAUSES = ["conn_close", "http10", "bad_request", "too_few_bytes", "exc_after_head", "no_length",
+CAUSES = ["conn_close", "http10", "bad_request", "too_few_bytes", "too_few_bytes_zero", "exc_after_head", "no_length",
           "client_fin", "client_rst", "bad_chunk", "oversize_body"]
 FOLLOW = ["complete", "partial", "garbage", "complete_with_body"]
 EVIDENCE = {
@@ -58,6 +58,10 @@ def gen(W):
     return sc
 
 
+def cpos_of(p):
+    return p["cpos"]
+
+
 def run_one(tapes, tier, scenario=None):
     sc = scenario if scenario is not None else gen(tapes.W)
     res = RunResult()
@@ -102,6 +106,11 @@ def run_one(tapes, tier, scenario=None):
             closing_app = False
         elif cause == "too_few_bytes":
             script["cl"] = len(body) + 7
+        elif cause == "too_few_bytes_zero":
+            # declares a length and produces nothing at all
+            script["cl"] = 9
+            script["chunks"] = [b""]
+            script.pop("sleeps", None)
         elif cause == "exc_after_head":
             script["raise_at"] = (("next", 1), AppExc)
         elif cause == "no_length":
@@ -198,6 +207,11 @@ def run_one(tapes, tier, scenario=None):
                 kclose, why = i, "undelimitable response"
             if kclose is not None:
                 break
+        if p["cause"] in ("too_few_bytes", "too_few_bytes_zero", "exc_after_head") and cpos_of(p) in call_pos:
+            # the application itself made response cpos undelimitable: whatever the wire looks like to a parser that
+            # is misled by the following bytes, the decision point is known from the script
+            if kclose is None or kclose > cpos_of(p):
+                kclose, why = cpos_of(p), "response could not be delimited as announced (%s)" % p["cause"]
         if kclose is not None:
             later = [pos for pos in call_pos if pos > kclose]
             if later:
